@@ -399,8 +399,8 @@ impl Prop for C11 {
                 Ok(())
             }
             Case::Sorter { conf, kind, src, tape, exit } => {
-                let inserts = c07::prepared(*kind, src);
-                let model_in = c07::model_inserts(*kind, src);
+                let inserts = c07::prepared(*kind, false, src);
+                let model_in = c07::model_inserts(*kind, false, src);
                 let distinct = sm::group(&inserts).len();
                 let exit = [Exit::Stream, Exit::Writer, Exit::Cursors][*exit as usize % 3];
                 let out_conf = crate::common::WConf::plain();
